@@ -20,6 +20,7 @@ import (
 
 	"github.com/goccmack/gocc/internal/ast"
 	"github.com/goccmack/gocc/internal/lexer/symbols"
+	"github.com/goccmack/gocc/internal/verifhook"
 )
 
 // Each Itemset element is a ItemList.
@@ -54,6 +55,7 @@ func (this ItemList) AddNoDuplicate(items ...*Item) ItemList {
 func (this ItemList) Closure(lexPart *ast.LexPart, symbols *symbols.Symbols) ItemList {
 	closure := this
 	for i := 0; i < len(closure); i++ {
+		verifhook.Step(verifhook.SiteLexItemListClosure)
 		expSym := closure[i].ExpectedSymbol()
 		if regDefId, isRegDefId := expSym.(*ast.LexRegDefId); isRegDefId {
 			if !this.ContainShift(expSym.String()) && !symbols.IsImport(regDefId.Id) {
